@@ -451,6 +451,26 @@ func (g *SQLGen) Agg7(table string, join string) *proto.NStmt {
 	// COUNT is asked for (AVG over NULL and comparisons with NULL are outside
 	// the property)
 	padded := len(n.From) > 1 && n.From[1].Join == "right"
+	if join == "dim2" {
+		// a joined table that shares column names (gi, gj) with the aggregated
+		// one: grouping columns are the same-named columns of both sides,
+		// written with qualifiers
+		n.From[1] = proto.NTable{Name: "dim2", Alias: "e", Join: []string{"inner", "left"}[r.Intn(2)],
+			On: &proto.Cond{Op: "=", LHS: &proto.Operand{Qual: q, Col: "gj"}, RHS: &proto.Operand{Qual: "e", Col: "gj"}}}
+		n.Items = []proto.NItem{
+			{Kind: "expr", Expr: valExpr(&proto.Operand{Qual: q, Col: "gi"})},
+			{Kind: "expr", Expr: valExpr(&proto.Operand{Qual: "e", Col: "gi"})},
+			{Kind: "count"},
+		}
+		if r.Bool() {
+			n.Items = append(n.Items, proto.NItem{Kind: "count", Arg: &proto.Operand{Qual: "e", Col: "gj"}})
+		}
+		n.GroupBy = []proto.Operand{{Qual: q, Col: "gi"}, {Qual: "e", Col: "gi"}}
+		if r.Bool() {
+			n.GroupBy[0], n.GroupBy[1] = n.GroupBy[1], n.GroupBy[0]
+		}
+		return n
+	}
 	gcols := []string{"g1", "g2", "gi", "gj", "gb"}
 	ng := r.Intn(4) // 0..3 grouping columns
 	perm := r.Intn(120)
